@@ -48,7 +48,7 @@ def run(ctx):
                 continue
             n += 1
             ctx.ob('R11.1', f'{o.split("::")[-1]}|{f}', _is_max_write(b, bi, st, f), f'{f} is written as max({f}, _)', b.loc(bi, st))
-    ctx.floor('R11.1', n, 3, 'writes to high-water marks')
+    ctx.floor('R11.1', n, 1, 'writes to high-water marks')
 
     # ---- R11.2
     rw = replay_writes(prog)
